@@ -11,6 +11,41 @@ import (
 )
 
 func (fr *Frame) execCall(v ssa.Value, c *ssa.CallCommon, st *State, alive *Term, in ssa.Instruction) *Term {
+	out := fr.execCall1(v, c, st, alive, in)
+	if fr.top {
+		name := calleeName(c)
+		for _, ac := range fr.vc.ct.AssumeAfter {
+			if ac.Var != name && ac.Var != fr.ord(in) {
+				continue
+			}
+			e2 := fr.env0.child()
+			e2.st = st
+			e2.old = fr.env0
+			e2.where = ac.Line
+			if t, ok := fr.vals[v]; ok {
+				e2.vars["result"], e2.vars["result0"] = t, t
+			}
+			for i, t := range fr.tuples[v] {
+				if t != nil {
+					e2.vars[fmt.Sprintf("result%d", i)] = t
+					if i == 0 {
+						e2.vars["result"] = t
+					}
+				}
+			}
+			e2.resolve = func(nm string) (*Term, bool) { return fr.resolveAt(nm, in, st) }
+			t, err := e2.Parse(ac.Expr)
+			if err != nil {
+				panic(&exprError{err.Error()})
+			}
+			fr.vc.assume(Implies(out, t))
+			fr.vc.explicitAssumes = append(fr.vc.explicitAssumes, fmt.Sprintf("%s after %s: %s [%s]", fr.vc.fnName(), fr.ord(in), ac.Expr, ac.Label))
+		}
+	}
+	return out
+}
+
+func (fr *Frame) execCall1(v ssa.Value, c *ssa.CallCommon, st *State, alive *Term, in ssa.Instruction) *Term {
 	vc := fr.vc
 	g := vc.g
 	if b, ok := c.Value.(*ssa.Builtin); ok {
@@ -469,7 +504,9 @@ func (fr *Frame) execBuiltin(v ssa.Value, b *ssa.Builtin, c *ssa.CallCommon, st 
 				fr.setVal(v, IntLit(at.Len()))
 				return
 			}
-			fr.setVal(v, vc.fresh("len", SInt))
+			ln := vc.fresh("len", SInt)
+			vc.assume(mk(">=", SBool, ln, IntLit(0)))
+			fr.setVal(v, ln)
 		}
 	case "cap":
 		a := fr.val(c.Args[0])
